@@ -298,3 +298,9 @@ func filterDumpWs(d string) []string {
 	}
 	return out
 }
+
+type logMsg = api.LogMessage
+
+func newLogClient(a *apiServer) *client.LogClient {
+	return client.NewLogClient(fmt.Sprintf("%s:%d", a.host, a.port), "")
+}
